@@ -36,6 +36,7 @@ VARIANTS = [
     dict(name='mixing-lifo-fifo', leaks=False, controls=False, rules=False, quality=True, vertices=False, mixing={'T1': 'LIFO', 'T2': 'FIFO'}),
     dict(name='mixing-mixed', leaks=False, controls=False, rules=False, quality=True, vertices=False, mixing={'T1': 'Mixed'}),
     dict(name='special-values', leaks=False, controls=False, rules=False, quality=True, vertices=False, mixing={'T1': 'TwoComp'}, mixfrac={'T1': 0.0}, nowrap=['PAT2']),
+    dict(name='clock-once', leaks=False, controls=True, rules=True, quality=False, vertices=False, clock_once=1),
     dict(name='or-of-and', leaks=False, controls=True, rules=True, quality=False, vertices=False, or_of_and=True),
 ]
 
